@@ -467,3 +467,23 @@ impl InFlight {
         self.ack_eliciting -= u64::from(packet.ack_eliciting);
     }
 }
+
+#[cfg(feature = "verif-hooks")]
+impl PathResponses {
+    pub(super) fn verif_len(&self) -> usize {
+        self.pending.len()
+    }
+}
+
+#[cfg(feature = "verif-hooks")]
+impl RttEstimator {
+    /// Construct an estimator for driving `congestion::Controller` implementations directly
+    pub fn verif_new(initial_rtt: Duration) -> Self {
+        Self::new(initial_rtt)
+    }
+
+    /// Feed an RTT sample
+    pub fn verif_update(&mut self, ack_delay: Duration, rtt: Duration) {
+        self.update(ack_delay, rtt)
+    }
+}
